@@ -813,6 +813,13 @@ class Exec:
                 if not -len(v) <= k < len(v):
                     raise Undecided("tuple index out of range")
                 return v[k]
+            if len(v) and all(hasattr(x, "merge_with") for x in v) and z3.is_int(i):
+                # entries that carry a symbolic identity (opaque strings with an id): the entry at a symbolic position is their If-chain
+                self.safe(st, "tuple-index", z3.And(i >= 0, i < len(v)), e)
+                out = v[len(v) - 1]
+                for k in range(len(v) - 2, -1, -1):
+                    out = v[k].merge_with(i == k, out)
+                return out
             raise Undecided("symbolic index into tuple")
         if isinstance(v, LRef):
             items = st.heap[v.sid].items
@@ -1212,6 +1219,14 @@ class Exec:
         if isinstance(tgt, (ast.Tuple, ast.List)):
             if isinstance(val, LRef):
                 val = Tup(st.heap[val.sid].items)
+            if isinstance(val, ARef) and self.arr(st, val).rank == 2:
+                # a, b, c = array2d: iteration over the first axis (the number of rows must be the number of targets)
+                d = self.arr(st, val)
+                nrows = z3.simplify(d.shape[0])
+                if not (z3.is_int_value(nrows) and nrows.as_long() == len(tgt.elts)):
+                    self.safe(st, "unpack-rows", d.shape[0] == len(tgt.elts), node)
+                val = Tup(self.alloc_arr(st, (d.shape[1],), self.lam1(lambda c, _r=r: self.sel2(d, z3.IntVal(_r), c)), d.elem, d.owner, view_of=val.sid)
+                          for r in range(len(tgt.elts)))
             if not isinstance(val, (Tup, tuple)) or len(val) != len(tgt.elts):
                 raise Undecided(f"unpacking at line {node.lineno}")
             for t, v in zip(tgt.elts, val):
